@@ -100,6 +100,16 @@ class K_{uid}(Component):
     def up():
       s.out @= s.in_ + s.w.a + zext(s.w.b, 8)
 
+class G_{uid}(Component):
+  def construct(s, groups):
+    # a nested-list parameter: the hardware depends on the nesting, not only on the flattened content
+    s.in_ = InPort(Bits8)
+    s.out = OutPort(Bits8)
+    n = sum((i + 1) * (len(g) if isinstance(g, list) else 7) for i, g in enumerate(groups))
+    @update
+    def up():
+      s.out @= s.in_ + n
+
 class Top_{uid}(Component):
   def construct(s):
     s.in_ = InPort(Bits8)
@@ -130,6 +140,9 @@ def gen_param_design(c, uid):
     cands8 = cands8 + candsR * 2
   if c.random() < 0.4:
     cands8 = cands8 + ["K_%s()", "K_%s(1)", "K_%s(n=2)"] * 3
+  if c.random() < 0.4:
+    cands8 = cands8 + ["G_%s([[0, 1], [2]])", "G_%s([[0], [1, 2]])", "G_%s([0, 1, 2])", "G_%s([[0, 1, 2]])",
+                       "G_%s([[0], [1], [2]])", "G_%s([[0, 1], [2]])"] * 2
   cands16 = ["P_%s(Bits16, 1)", "P_%s(Bits16, 2)", "Q_%s(16, 2)", "Q_%s(16, 1)", "P_%s(Bits16, 1)"]
   for _ in range(c.randint(3, 7)):
     inst8.append(c.choice(cands8) % uid)
